@@ -1,6 +1,6 @@
 PLAN['C07'] = dict(
     level='exploration',
-    units=std_units('C07', [('asan', 'sdcz', 500, 40000), ('plain', 'sdcz', 500, 40000), ('asan-i64', 'sdcz', 240, 10000)], chunk=25, cpu=20),
+    units=std_units('C07', [('asan', 'sdcz', 1000, 40000), ('plain', 'sdcz', 1000, 40000), ('asan-i64', 'sdcz', 480, 10000)], chunk=25, cpu=20),
     rule='per generated matrix (fill-producing patterns, complete and incomplete LU, all orderings/thresholds/tunings): reference = fill estimate 30 + library allocation; variants = fill estimate 1..8 (0..many in-flight expansions), '
          'caller workspace on a geometric ladder of lengths down to the first reported shortage at 4- and 8-byte alignment with fill 30 and fill 1..3, then a bisection to the smallest sufficient length and a sample of lengths on the 4-byte grid right above it (reduced-growth expansions); byte hash of (perm_r, perm_c, supernode partition, row lists, L values, U colptr/rowind/values) must equal the reference; '
          'QuerySpace for_lu against the documented accounting; non-trivial = at least 4 bitwise comparisons and at least one expansion; distinct = hash(pattern, ColPerm, kind)',
